@@ -20,7 +20,7 @@
      - the dict-key handling of omitted / empty / partial options (options=None,
        the `latex` sub-dict, missing keys);
      - the emitters' string formatting (SVG / TikZ text, uni2tex: properties C07,
-       C09, C19) and tick texts;
+       C09, C19) -- tick texts are modelled since (C07_ticktext, Time/TickFormat.v) and tied by this check;
      - DESIGN.md's C11_refuted_cur (the four pre-repair witnesses of Appendix A.5)
        is history: the repairs are in /repo and recorded in known_findings.json.
    Instants have millisecond resolution and lie in years 1900..2200 (Appendix B);
